@@ -6,6 +6,6 @@ CONSTANTS
   Format = "ubjson"
   MaxLen = 4
   ExhLen = 1
-  Reps = {90, 78, 84, 70, 105, 85, 73, 108, 76, 100, 68, 72, 67, 83, 91, 93, 123, 125, 36, 35, 0, 1, 2, 97, 49, 45, 127, 128, 195, 169, 255, 88}
+  Reps = {90, 78, 84, 105, 85, 73, 108, 76, 100, 68, 72, 67, 83, 91, 93, 123, 125, 36, 35, 0, 1, 97, 49, 128, 195, 255}
   OnlyAccepted = FALSE
   TokMode = "bytes"
